@@ -40,7 +40,7 @@ type c18Decl struct {
 	Debug   bool   `short:"d" long:"debug"`
 	Hid     bool   `long:"hidopt" hidden:"1"`
 	File    c18Val `short:"f" long:"file"`
-	Opt     string `long:"opt" optional:"1" optional-value:"x"`
+	Opt     string `short:"o" long:"opt" optional:"1" optional-value:"x"`
 	OnlyS   bool   `short:"s"`
 	HidS    bool   `short:"z" hidden:"1"`
 	Add     c18Add `command:"add"`
@@ -62,6 +62,9 @@ var c18Pool = []c18Item{
 	{"optattached", []string{"-fbeta"}},
 	{"optsep", []string{"-f", "beta"}},
 	{"optsep", []string{"--file", "bet"}},
+	{"optsep", []string{"-vf", "beta"}}, // a cluster whose last member takes the next word
+	{"optsep", []string{"-vof", "bet"}}, // ... after a member with an optional argument
+	{"flag", []string{"-o"}},
 	{"cmd", []string{"add"}},
 	{"cmd", []string{"add2"}},
 	{"cmd", []string{"rm"}},
@@ -222,7 +225,7 @@ func H_C18_complete(v *V) {
 	}
 	if !terminated && v.Choice(3) == 0 {
 		pending = true
-		argv = append(argv, []string{"--file", "-f"}[v.Choice(2)])
+		argv = append(argv, []string{"--file", "-f", "-vf", "-vof"}[v.Choice(4)])
 	}
 	// the partial word: 0..2 leading dashes (shape) followed by symbolic bytes
 	P := []string{"", "-", "--"}[v.Shape("dash")] + v.String(v.Shape("lp"))
